@@ -350,14 +350,21 @@ def judgeExpected {Pat H M} (sMap : M → String) (exp : Pat → H → List M) (
   (gotS.filter fun g => !want.contains g, want.filter fun w => !gotS.contains w,
     multisetDiff gotS gotS.eraseDups)
 
-/-- all hosts of length ≤ 5 over the literals of the patterns plus one fresh character -/
+/-- all hosts up to the longest pattern's length + 1 (at most 8, and at most ≈ 40 000 hosts) over
+the literals of the patterns plus two fresh characters (two, so that a variable equality can be
+made false on non-literal characters) -/
 def strWindows (pats : List (List CharVar)) : List (List Nat) :=
   let lits := (pats.flatMap fun p => p.filterMap fun cv => match cv with | .lit c => some c | _ => none).eraseDups
-  let alpha := lits ++ [1000]
+  let alpha := lits ++ [1000, 1001]
+  let maxLen := min 8 ((pats.map (·.length)).foldl max 0 + 1)
+  let rec fit (l : Nat) : Nat → Nat
+    | 0 => l
+    | f + 1 => if alpha.length ^ l > 40000 ∧ l > 1 then fit (l - 1) f else l
+  let len := fit maxLen 8
   let rec go : Nat → List (List Nat)
     | 0 => [[]]
     | n + 1 => let prev := go n; prev ++ (prev.filter (·.length == n)).flatMap fun h => alpha.map fun c => h ++ [c]
-  go 6
+  go len
 
 def strE2E : E2EDom Nat Nat CharPred (List Nat) StrPos (List CharVar) :=
   { name := "STR", D := strDomain, toTree := charTree natLt,
